@@ -94,7 +94,7 @@ Proof.
 Qed.
 
 Lemma prefix_word_tok l t : prefix_word l t = true -> prefix_tok t = true.
-Proof. unfold prefix_word. intros H. do 5 (apply andb_prop in H as [H _]). exact H. Qed.
+Proof. unfold prefix_word. intros H. do 4 (apply andb_prop in H as [H _]). exact H. Qed.
 
 Lemma prefix_words_toks l pre : forallb (prefix_word l) pre = true -> forallb prefix_tok pre = true.
 Proof.
